@@ -19,6 +19,9 @@ unsigned char* glue_mem_data(struct wasmMemory* m);
 unsigned glue_mem_pages(struct wasmMemory* m);
 unsigned glue_mem_size(struct wasmMemory* m);
 unsigned glue_mem_max(struct wasmMemory* m);
+const char* glue_module_name(void);
+struct wasmMemory* glue_shared_memory_new(unsigned minPages, unsigned maxPages);
+void glue_shared_memory_free(struct wasmMemory* m);
 int glue_mem_shared(struct wasmMemory* m);
 void glue_mem_desc_range(struct wasmMemory* m, const void** lo, const void** hi);
 size_t glue_mem_field_offset(int which);
